@@ -312,7 +312,25 @@ def history(draw):
         init = {"kind": "FSArray", "h": h, "w": w, "fmt": draw(FMT), "fmt_positional": draw(st.booleans())}
     ops = []
     for _ in range(draw(st.integers(0, 10))):
-        k = draw(st.integers(0, 9))
+        k = draw(st.integers(0, 10))
+        if k == 10 and w >= 4:
+            # macro: a row is filled, a short FmtStr row object goes into a wider region of it (the library pads it), then the
+            # very same object is assigned again into a region exactly as wide as the object was
+            r = draw(st.integers(0, h + 1))
+            klen = draw(st.integers(1, w - 3))
+            c0 = draw(st.integers(0, w - klen - 2))
+            fill = {"str": "f" * w}
+            short = {"desc": [[draw(st.text(alphabet="pq", min_size=klen, max_size=klen)), draw(gen.atts(allow_false=False))]]}
+            ops.append({"op": "set", "r0": r, "r1": r + 1, "c0": 0, "c1": w, "block": [fill], "as": "list"})
+            ops.append({"op": "set", "r0": r, "r1": r + 1, "c0": c0, "c1": c0 + klen + draw(st.integers(1, 2)), "block": [short], "as": "list"})
+            r2 = draw(st.sampled_from([r, r, h + 1]))
+            if r2 != r:
+                ops.append({"op": "set", "r0": r2, "r1": r2 + 1, "c0": 0, "c1": w, "block": [{"str": "g" * w}], "as": "list"})
+                ops.append({"op": "set", "r0": r2, "r1": r2 + 1, "c0": c0, "c1": c0 + klen, "block": [{"ref": 1}], "as": "list"})
+            else:
+                ops.append({"op": "set", "r0": r2, "r1": r2 + 1, "c0": c0, "c1": c0 + klen, "block": [{"ref": 0}], "as": "list"})
+            h = max(h, r + 1, r2 + 1)
+            continue
         if k <= 5:
             r0 = draw(st.integers(0, h + 2))
             r1 = draw(st.integers(r0, min(r0 + 3, h + 3)))
